@@ -781,6 +781,8 @@ class Exec:
             self.implicit(f'None.{name}', z3.Not(self.zbool(o.isnone)), 'AttributeError')
             o = o.val
         if o is None:
+            if name == '__class__':
+                return B.TypeTok('NoneType', lambda ex_, *a: None)
             if default is not NOTHANDLED:
                 return default
             raise ExcSig('AttributeError', f'None.{name}')
